@@ -309,7 +309,11 @@ def execute_merge(ctx, case):
             if ok:
                 one_merge(ctx, case, db, feats, model_in, second, "same objects, other criteria", issued, dbids)
                 ok = inputs_unchanged("same objects, other criteria")
-            if ok:
+            if ok and any("," in str(o.seqid) for o in out):
+                # a first pass without the seqid criterion yields features whose seqid is a comma-joined list; how such a
+                # value evolves and compares when merged again is nowhere stated: not judged
+                ctx.skip("re-merge of yielded objects carrying a comma-joined seqid (statement silent)")
+            elif ok:
                 # the objects the first call yielded (they are start-ordered: every run begins with its leftmost member)
                 before_out = [str(o) for o in out]
                 one_merge(ctx, case, db, out, [observe(o) for o in out], second, "objects yielded by merge()", issued, dbids)
